@@ -307,6 +307,9 @@ func egSequence[E elgamal.FiniteCyclicGroupElement[E, S], S algebra.UintLike[S]]
 		verify(cur)
 		hist := []egItem[E, S]{cur}
 		steps := rapid.IntRange(0, 8).Draw(t, "steps")
+		if rapid.IntRange(1, 30).Draw(t, "longSequence") == 30 {
+			steps = rapid.SampledFrom([]int{12, 16}).Draw(t, "stepsBig") // no limit on the length of a sequence
+		}
 		var shape []string
 		for i := 0; i < steps; i++ {
 			lbl := fmt.Sprintf("s%d", i)
@@ -336,6 +339,11 @@ func egSequence[E elgamal.FiniteCyclicGroupElement[E, S], S algebra.UintLike[S]]
 				log = append(log, fmt.Sprintf("%s(a=%s,b=%s,r=%s)", op, other.a, other.b, other.r))
 			case "op-multi":
 				cnt := rapid.IntRange(1, 3).Draw(t, lbl+"cnt")
+				if rapid.IntRange(1, 10).Draw(t, lbl+"manyRest") == 10 {
+					// the variadic Op folds first, second and any number of further operands (no limit,
+					// no algorithm switch): occasionally 6, 7, 9 or 17 operands instead of 3..5
+					cnt = rapid.SampledFrom([]int{4, 5, 7, 15}).Draw(t, lbl+"cntBig")
+				}
 				second := hist[rapid.IntRange(0, len(hist)-1).Draw(t, lbl+"second")]
 				next.a, next.b, next.r = new(big.Int).Add(cur.a, second.a), new(big.Int).Add(cur.b, second.b), new(big.Int).Add(cur.r, second.r)
 				var rc []*elgamal.Ciphertext[E, S]
